@@ -60,6 +60,8 @@ type Actor struct {
 
 	// extension side
 	ExtName    string
+	RegName    string // name it registered under (accepted, last)
+	Regs       []RegRec // every accepted registration issued by this actor
 	Internal   bool
 	ExtID      string
 	Subs       []string
@@ -307,6 +309,8 @@ func (w *World) absorb() {
 		case "ext-register":
 			if c.Status == 200 {
 				a.Registered = true
+				a.RegName = c.ReqHdr["Lambda-Extension-Name"]
+				a.Regs = append(a.Regs, RegRec{Name: strings.TrimSpace(a.RegName), Events: a.pendingSubs, Step: c.EndStep})
 				a.RegStep = c.EndStep
 				a.ExtID = c.Hdr.Get("Lambda-Extension-Identifier")
 				a.Subs = a.pendingSubs
@@ -401,4 +405,11 @@ func samePayload(posted, got []byte) bool {
 		}
 	}
 	return true
+}
+
+// RegRec is one accepted registration.
+type RegRec struct {
+	Name   string
+	Events []string
+	Step   int
 }
